@@ -115,7 +115,7 @@ Definition k_type : bstr := [116; 121; 112; 101].
 (* the DOM                                                                                *)
 (* ------------------------------------------------------------------------------------ *)
 Inductive tree : Type :=
-| Unk                                                   (* XMPP_STANZA_UNKNOWN, data == NULL *)
+| Unk (children : list tree)                            (* XMPP_STANZA_UNKNOWN, data == NULL; children may already be attached *)
 | Text (s : bstr)
 | Tag (name : bstr) (a : attrs) (children : list tree).
 
@@ -381,7 +381,7 @@ Fixpoint render_rec (c : pctx) (t : tree) (buf : cells) (ptr : option Z) (buflen
   : rres (cells * Z) :=
   let st0 := mkR buf ptr buflen 0 in
   match t with
-  | Unk => RErr XMPP_EINVOP
+  | Unk _ => RErr XMPP_EINVOP
   | Text s => rbind (emit_escaped buflen st0 fmt_text [] s) rdone
   | Tag name a children =>
       rbind (emit buflen st0 (format fmt_open [name])) (fun st1 =>
@@ -450,7 +450,7 @@ Definition attr_chunk (c : pctx) (h : htable) (key : bstr) : bstr :=
 
 Fixpoint render (c : pctx) (t : tree) : bstr :=
   match t with
-  | Unk => []
+  | Unk _ => []
   | Text s => format fmt_text [escape s]
   | Tag name a children =>
       format fmt_open [name] ++
@@ -481,24 +481,34 @@ Definition copy_attrs (a : attrs) : option attrs :=
   | None => Some None
   end.
 
-(* None = NULL *)
+(* the loop over the children of xmpp_stanza_copy *)
+Section CopyList.
+  Variable f : tree -> option tree.
+  Fixpoint copy_list (cs : list tree) : option (list tree) :=
+    match cs with
+    | [] => Some []
+    | ch :: r =>
+        match f ch with
+        | None => None
+        | Some ch' => match copy_list r with Some r' => Some (ch' :: r') | None => None end
+        end
+    end.
+End CopyList.
+
+(* None = NULL.  Children are copied whatever the type of the node is. *)
 Fixpoint copy_tree (t : tree) : option tree :=
   match t with
-  | Unk => Some Unk
+  | Unk children =>
+      match copy_list copy_tree children with
+      | None => None
+      | Some cs' => Some (Unk cs')
+      end
   | Text s => Some (Text s)
   | Tag name a children =>
       match copy_attrs a with
       | None => None
       | Some a' =>
-          match (fix go (cs : list tree) : option (list tree) :=
-                   match cs with
-                   | [] => Some []
-                   | ch :: r =>
-                       match copy_tree ch with
-                       | None => None
-                       | Some ch' => match go r with Some r' => Some (ch' :: r') | None => None end
-                       end
-                   end) children with
+          match copy_list copy_tree children with
           | None => None
           | Some cs' => Some (Tag name a' cs')
           end
@@ -571,7 +581,21 @@ Definition upd_node (h : heap) (id : nat) (f : node -> node) : heap :=
   | None => h
   end.
 
-(* the tree below a node; None = fuel exhausted (cyclic structure) or dangling id *)
+(* the tree below a node; None = fuel exhausted (cyclic structure) or dangling id.
+   (children hanging below a text node are never looked at by the renderer and are left out) *)
+Section TreesOf.
+  Variable f : nat -> option tree.
+  Fixpoint trees_of (ids : list nat) : option (list tree) :=
+    match ids with
+    | [] => Some []
+    | i :: r =>
+        match f i with
+        | None => None
+        | Some t => match trees_of r with Some ts => Some (t :: ts) | None => None end
+        end
+    end.
+End TreesOf.
+
 Fixpoint tree_of (fuel : nat) (h : heap) (id : nat) : option tree :=
   match fuel with
   | O => None
@@ -580,18 +604,14 @@ Fixpoint tree_of (fuel : nat) (h : heap) (id : nat) : option tree :=
       | None => None
       | Some n =>
           match n_type n with
-          | NUnknown => Some Unk
           | NText => Some (Text (n_data n))
+          | NUnknown =>
+              match trees_of (tree_of f h) (n_children n) with
+              | None => None
+              | Some cs => Some (Unk cs)
+              end
           | NTag =>
-              match (fix go (ids : list nat) : option (list tree) :=
-                       match ids with
-                       | [] => Some []
-                       | i :: r =>
-                           match tree_of f h i with
-                           | None => None
-                           | Some t => match go r with Some ts => Some (t :: ts) | None => None end
-                           end
-                       end) (n_children n) with
+              match trees_of (tree_of f h) (n_children n) with
               | None => None
               | Some cs => Some (Tag (n_data n) (n_attrs n) cs)
               end
@@ -600,22 +620,29 @@ Fixpoint tree_of (fuel : nat) (h : heap) (id : nat) : option tree :=
   end.
 
 (* fresh nodes for a tree (what xmpp_stanza_new + setters + add_child build) *)
+Section AllocList.
+  Variable f : heap -> tree -> heap * nat.
+  Fixpoint alloc_list (cs : list tree) (hh : heap) : heap * list nat :=
+    match cs with
+    | [] => (hh, [])
+    | ch :: r =>
+        let '(h', i) := f hh ch in
+        let '(h'', is) := alloc_list r h' in
+        (h'', i :: is)
+    end.
+End AllocList.
+
 Fixpoint alloc_tree (h : heap) (parent : option nat) (t : tree) : heap * nat :=
   let id := length h in
   match t with
-  | Unk => (h ++ [mkN NUnknown [] None [] parent], id)
   | Text s => (h ++ [mkN NText s None [] parent], id)
+  | Unk children =>
+      let h1 := h ++ [mkN NUnknown [] None [] parent] in
+      let '(h2, ids) := alloc_list (fun hh ch => alloc_tree hh (Some id) ch) children h1 in
+      (upd_node h2 id (fun n => mkN (n_type n) (n_data n) (n_attrs n) ids (n_parent n)), id)
   | Tag name a children =>
       let h1 := h ++ [mkN NTag name a [] parent] in
-      let '(h2, ids) :=
-        (fix go (cs : list tree) (hh : heap) : heap * list nat :=
-           match cs with
-           | [] => (hh, [])
-           | ch :: r =>
-               let '(h', i) := alloc_tree hh (Some id) ch in
-               let '(h'', is) := go r h' in
-               (h'', i :: is)
-           end) children h1 in
+      let '(h2, ids) := alloc_list (fun hh ch => alloc_tree hh (Some id) ch) children h1 in
       (upd_node h2 id (fun n => mkN (n_type n) (n_data n) (n_attrs n) ids (n_parent n)), id)
   end.
 
